@@ -956,7 +956,7 @@ pub fn c12(args: &Args) {
         return;
     }
     let seed = args.seed;
-    let n_rt = args.pick(600, 20_000);
+    let n_rt = args.pick(1_500, 20_000);
     let every = args.pick(5, 1) as usize;
     block_on_real(4, c12_roundtrips(seed, n_rt, &mut report));
     let build = if cfg!(debug_assertions) { "debug (rustc runtime checks on)" } else { "release" };
